@@ -4,7 +4,7 @@
 //! = 42 107 904 judged calls, in every tier except `sanitizer`. One *case* is one
 //! (SF, BW, CR, header) slab of 256 x 257 calls.
 
-use crate::bus::{BWS, BW_NAME, CRS, SFS};
+use crate::bus::{BWS, BW_DIV, BW_NAME, BW_NOMINAL_HZ, CRS, SFS};
 use lora_modulation::BaseBandModulationParams;
 use lrv_core::*;
 
@@ -56,7 +56,7 @@ impl Monitor for C16 {
     fn assumptions(&self) -> Vec<String> {
         vec![
             "formula: n = 8 + max(ceil((8L - 4SF + 28 + 16 - 20H) / (4(SF - 2DE))) (CR+4), 0), T = floor((4 pre + 17 + 4n) Tsym / 4), or n Tsym without preamble; CRC is always counted (+16) because the API has no CRC switch; the same formula is used for SF5/SF6".into(),
-            "Tsym = floor(2^SF 10^6 / Bandwidth::hz()) (the crate's documented microsecond truncation, recomputed by the oracle from the public hz()); DE = the crate's own public `ldro` field (its correctness is C15's business)".into(),
+            "Tsym = floor(2^SF 10^6 / Bandwidth::hz()) (the crate's documented microsecond truncation, recomputed by the oracle from the public hz(), which itself must report the data sheet's value of the named bandwidth: 500 kHz / 2^k exactly, rounded to 1 Hz, or rounded to 10 Hz as printed); DE = the crate's own public `ldro` field (its correctness is C15's business)".into(),
         ]
     }
     fn required_events(&self, tier: Tier) -> Vec<&'static str> {
@@ -80,6 +80,21 @@ impl Monitor for C16 {
         let p = BaseBandModulationParams::new(sf, bw, cr);
         let de = p.ldro;
         let tsym = ((1u64 << sfn) * 1_000_000 / bw.hz() as u64) as i128;
+        // the symbol time is 2^SF / BW of the *named* bandwidth: the value hz() reports for it must be
+        // the data sheet's figure (500 kHz / 2^k, possibly rounded to 1 Hz or, as printed, to 10 Hz)
+        {
+            let exact_num = 500_000u64; // true bandwidth = 500000 / BW_DIV
+            let d = BW_DIV[bwi];
+            let allowed = [BW_NOMINAL_HZ[bwi], exact_num / d, exact_num.div_ceil(d), (exact_num * 2 + d) / (2 * d)];
+            col.eval_n(1);
+            if !allowed.contains(&(bw.hz() as u64)) {
+                col.violation(
+                    &format!("C16|bandwidth-table|BW{}|got={}", BW_NAME[bwi], bw.hz()),
+                    "the bandwidth value the symbol time is computed from is not the data sheet's value for that bandwidth",
+                    json!({"bandwidth": BW_NAME[bwi], "hz": bw.hz(), "accepted": allowed}),
+                );
+            }
+        }
         let hdr = if explicit { "explicit" } else { "implicit" };
         let cell = format!("SF{}/BW{}/CR4_{}/hdr={}", sfn, BW_NAME[bwi], crd, hdr);
         col.event(if de { "ldro_on" } else { "ldro_off" });
